@@ -149,6 +149,57 @@ def run(chk):
         nsch += r['schedules']
         if r['problem']:
             chk.violation('schedule-fast_concatenate', f'fast_concatenate N1={N1} N2={N2} Nthread={T}: {r["problem"]}', dict(N1=N1, N2=N2, T=T))
+    # gen_cent: the real two-pass source with every internally allocated array shared; outputs start as NaN / -1 sentinels
+    import hodcommon as hc2
+    shared_names = ['Nout', 'keep', 'gstart'] + [f'{t}_{c}' for t in ('lrg', 'elg', 'qso') for c in ('x', 'y', 'z', 'vx', 'vy', 'vz', 'mass', 'id')]
+    for (Hh, Tt) in ([(7, 3)] if chk.quick else [(7, 3), (5, 2), (9, 4), (3, 5)]):
+        halos = hc2.make_halos(np.random.default_rng(chk.seed + Hh), Hh)
+        halos['hrandoms'] = halos['hrandoms'] * 0.5
+        import numba as nb
+        from numba.typed import Dict as NDict
+
+        def tdict(d):
+            out = NDict.empty(key_type=nb.types.unicode_type, value_type=nb.types.float64)
+            for k2, v2 in d.items():
+                out[k2] = float(v2)
+            for k2 in ('Acent', 'Asat', 'Bcent', 'Bsat', 'Ccent', 'Csat', 'ic'):
+                out.setdefault(k2, 1.0 if k2 == 'ic' else 0.0) if hasattr(out, 'setdefault') else None
+            return out
+        L, E, Qd = tdict(dict(hc2.LRG, ic=1.0)), tdict(dict(hc2.ELG, ic=1.0)), tdict(dict(hc2.QSO, ic=1.0))
+        args = lambda: (halos['hpos'].copy(), halos['hvel'].copy(), halos['hmass'].copy(), halos['hid'].copy(), halos['hmultis'].copy(), halos['hrandoms'].copy(),
+                        halos['hveldev'].copy(), halos['hdeltac'].copy(), halos['hfenv'].copy(), halos['hshear'].copy(), L, E, Qd, True, 1.0 / hc2.VELZ2KMS, hc2.LBOX, True, True, True, Tt, None)
+        try:
+            refc = gen_cent(*args())
+            refv = {t: {k2: np.asarray(v2) for k2, v2 in refc[i].items()} for i, t in enumerate(('LRG', 'ELG', 'QSO'))}
+            refid = {k2: np.asarray(v2) for k2, v2 in refc[3].items()}
+
+            def build(sc, hook):
+                def share(x, nm):
+                    if isinstance(x, np.ndarray) and not isinstance(x, sched.Shared):
+                        if nm not in ('Nout', 'gstart'):
+                            x[...] = -7 if x.dtype.kind in 'iu' else np.nan
+                        return sched.Shared(x, nm, sc)
+                    return x
+                fn = sched.threaded_source(gen_cent, sc, share=shared_names, overrides={'numba': NumbaStub()})
+                fn.__globals__['__par'] = hook(sc.par)
+                fn.__globals__['__share'] = share
+                return lambda: fn(*args())
+
+            def check(res):
+                for i, t in enumerate(('LRG', 'ELG', 'QSO')):
+                    for k2 in refv[t]:
+                        got = sched.unwrap(res[i][k2]) if not isinstance(res[i][k2], np.ndarray) else res[i][k2]
+                        if not np.allclose(np.asarray(got), refv[t][k2], rtol=1e-12, atol=0, equal_nan=False):
+                            return f'{t} column {k2} = {np.asarray(got).tolist()} differs from the compiled single result {refv[t][k2].tolist()}'
+                    if not np.array_equal(np.asarray(sched.unwrap(res[3][t])), refid[t]):
+                        return f'{t} ids differ'
+                return None
+            r = sched.explore(build, check, max_schedules=8, seed=chk.seed, random_schedules=2)
+            nsch += r['schedules']
+            if r['problem']:
+                chk.violation('schedule-gen_cent', f'gen_cent H={Hh} Nthread={Tt}: {r["problem"]}', dict(H=Hh, T=Tt))
+        except Exception as e:  # noqa
+            chk.note(f'gen_cent schedule replay not available: {type(e).__name__}: {str(e)[:200]}')
     chk.part('schedule_replay', schedules=nsch)
     chk.add_cases(nrun + nfc + nsch, nontrivial=nontriv + nfc, traces=nrun + nfc + nsch)
 
